@@ -63,7 +63,7 @@ CONFIGS = [
     # traversal and queries on every shape and its obscured variants (C15)
     cfg("query_q", [["build"], ["elideset", "compressone", "observe"], ["observe"]], nreg=1, maxsize=14, maxt=2,
         inv=("WellFormedInv", "DeclaredDigestHonest", "RevealKeepsDigest", "C15Laws"),
-        shapes="ShUpTo(%s, 5) \\cup NodeSubjectNodes(%s, 9) \\cup Decorated(%s) \\cup DeepDecorated(%s)" % (B3, B2, B2, B2)),
+        shapes="ShUpTo(%s, 5) \\cup NodeSubjectNodes(%s, 9) \\cup Decorated(%s) \\cup DeepDecorated(%s) \\cup Nodes3(%s)" % (B3, B2, B2, B2, B2)),
     # the decoder on every single structural mutation of valid encodings (C06)
     cfg("decode_q", [["build"], ["elideset", "compressone", "decodewire", "codec"], ["decodewire", "codec"]], nreg=1, maxsize=14, maxt=1,
         inv=("WellFormedInv", "C05RoundTrip"), props=("C06Prop",),
@@ -82,6 +82,10 @@ CONFIGS = [
     cfg("sig_q2", [["build"], ["signature"], ["elideset", "compressone"], ["signature"], ["verify"]],
         atoms=("a1",), nreg=1, maxsize=40, maxt=1, inv=("WellFormedInv",), props=("C09Prop",),
         shapes="ShUpTo(%s, 2) \\cup NodeSubjectNodes(%s, 9)" % (B1, B1)),
+    # three signers: key lists of length 3 in every order x thresholds (order must not matter)
+    cfg("sig_q3", [["build"], ["signature"], ["signature"], ["verify"]], signers=("s1", "s2", "s3"),
+        atoms=("a1",), nreg=1, maxsize=40, maxt=1, inv=("WellFormedInv",), props=("C09Prop",),
+        shapes="{Leaf(V(\"a1\")), Wrap(Leaf(V(\"a1\")))}"),
     cfg("sig_t", [["build"], ["signature"], ["signature", "forgesigned", "elideset", "compressone", "addassertion", "decorate", "wrap"],
                   ["signature", "elideset", "uncompress", "codec"], ["verify"]],
         atoms=("a1",), nreg=1, maxsize=40, maxt=1, inv=("WellFormedInv",), props=("C09Prop",),
@@ -103,7 +107,7 @@ CONFIGS = [
         policies="{<<1, <<<<2, 2>>>>>>, <<1, <<<<1, 2>>>>>>, <<2, <<<<1, 1>>, <<1, 1>>>>>>}",
         shapes="{Leaf(V(\"a1\"))}"),
     # inclusion proofs (C12)
-    cfg("proof_q", [["build"], ["build", "proof"], ["proof", "elideset"], ["confirm"]],
+    cfg("proof_q", [["build"], ["build", "proof", "compressone"], ["proof", "elideset"], ["confirm"]],
         nreg=2, maxsize=12, maxt=2, inv=("WellFormedInv",), props=("C12Prop",),
         shapes="ShUpTo(%s, 3) \\cup {e \\in Sh(%s, 5) : IsNode(e)} \\cup Nodes2(%s) \\cup WrapNodes(%s) \\cup NodeSubjectNodes({Leaf(V(\"a1\"))}, 9) \\cup Decorated({Leaf(V(\"a1\"))})" % (B2, B2, B1, B1)),
     # types and attachments (C19)
@@ -143,7 +147,7 @@ CONFIGS = [
         shapes="{Leaf(V(\"a1\"))} \\cup {e \\in Sh(%s, 5) : IsNode(e)}" % (B1,)),
     cfg("query_t", [["build"], ["elideset", "compressone", "encrypt"], ["elideset", "observe"], ["observe"]], nreg=1, maxsize=14, maxt=2,
         inv=("WellFormedInv", "DeclaredDigestHonest", "RevealKeepsDigest", "C15Laws"),
-        shapes="ShUpTo(%s, 5) \\cup NodeSubjectNodes(%s, 9) \\cup Decorated(%s) \\cup DeepDecorated(%s) \\cup Nodes2(%s) \\cup Nodes3(%s)" % (B3, B2, B2, B2, B2, B1)),
+        shapes="ShUpTo(%s, 5) \\cup NodeSubjectNodes(%s, 9) \\cup Decorated(%s) \\cup DeepDecorated(%s) \\cup Nodes2(%s) \\cup Nodes3(%s)" % (B3, B2, B2, B2, B2, B2)),
     cfg("compare_t", [["build"], ["build", "elide", "compress", "encrypt", "codec"], ["elide", "compress", "encrypt", "codec", "compare"], ["compare"]],
         maxsize=9, maxt=2, inv=("WellFormedInv", "DeclaredDigestHonest", "C14Laws"), props=("C02Prop", "C14Prop", "C07Prop"),
         shapes="ShUpTo(%s, 5) \\cup NodeSubjectNodes({Leaf(V(\"a1\"))}, 9) \\cup Decorated({Leaf(V(\"a1\"))}) \\cup Nodes2(%s)" % (B2, B1)),
